@@ -38,6 +38,7 @@ func buildCodec(schema Schema, typ reflect.Type, omit bool) (Codec, error) {
 		registryMutex.RLock()
 		cf, ok := registry[typ]
 		registryMutex.RUnlock()
+		verifPoint(vpRegistryAfterLookup)
 		if ok {
 			return cf(schema, typ, omit)
 		}
